@@ -2152,4 +2152,44 @@ theorem denote_unused {args body rets oh s} {k : Nat} (h : link body rets k = .g
       rw [hkf] at this; cases this
     | out j o => rfl
 
+
+/-! ## an assignment reaches the whole chain of value links, whatever was there before -/
+
+mutual
+/-- `v` sits on input `k` of this node and on every channel down its chain of value links -/
+def Holds (v : Val) : Node → St → Nat → Prop
+  | .leaf _ _, σ, k => σ.get .inp k = v
+  | .mac _ body rets _ _, σ, k =>
+    σ.get .inp k = v ∧
+      (link body rets k = .ui → σ.get .uiIn k = v) ∧
+      (∀ j i, link body rets k = .child j i → HoldsKid v body 0 j i σ)
+def HoldsKid (v : Val) : List Node → Nat → Nat → Nat → St → Prop
+  | [], _, _, _, _ => True
+  | n :: _, base, 0, i, σ => Holds v n (σ.sub base) i
+  | _ :: ns, base, j + 1, i, σ => HoldsKid v ns (base + 1) j i σ
+end
+
+mutual
+theorem setIn_holds : ∀ (n : Node) (σ : St) (k : Nat) (v : Val), Holds v n (setIn n σ k v) k
+  | .leaf _ _, σ, k, v => by simp [Holds, setIn]
+  | .mac args body rets oh s, σ, k, v => by
+    simp only [Holds]
+    refine ⟨by rw [setIn_get_inp]; simp, ?_, ?_⟩
+    · intro hl; simp [setIn, hl]
+    · intro j i hl
+      have : setIn (.mac args body rets oh s) σ k v = setInKid body 0 j i v (σ.set .inp k v) := by
+        simp [setIn, hl]
+      rw [this]
+      exact setInKid_holds body 0 j i v _
+theorem setInKid_holds : ∀ (ns : List Node) (base j i : Nat) (v : Val) (σ : St),
+    HoldsKid v ns base j i (setInKid ns base j i v σ)
+  | [], _, _, _, _, _ => by simp [HoldsKid]
+  | n :: _, base, 0, i, v, σ => by
+    simp only [HoldsKid, setInKid, St.sub_graft_same]
+    exact setIn_holds n (σ.sub base) i v
+  | _ :: ns, base, j + 1, i, v, σ => by
+    simp only [HoldsKid, setInKid]
+    exact setInKid_holds ns (base + 1) j i v σ
+end
+
 end PwVerif.Macro
